@@ -291,7 +291,7 @@ func TestVerif_C02(t *testing.T) {
 			// state of this agent instance is unknown after an abandoned history
 			a.stop(vStopWatchdog)
 			agents[k] = nil
-			if res.nViol() > 40 {
+			if res.nViol() > 400 {
 				return
 			}
 		}
